@@ -201,7 +201,7 @@ def run(ctx):
             starts.append(starts[-1] + u16(l) + 1)
         for kd, off, pos, loc in toks:
             p = max(j for j, s0 in enumerate(starts) if s0 <= off)
-            gov = [(j, n) for j, n in mk if j < p]
+            gov = [(j, n) for j, n in mk if j <= p]
             if not gov:
                 continue
             j, n = gov[-1]
